@@ -499,6 +499,7 @@ struct DriverBase
     ~DriverBase()
     {
         g_hist = nullptr;
+        disarm();  // the watchdog covers scenarios only (not e.g. the leak check at exit)
     }
     void file(const std::string &kind, const std::string &why)
     {
